@@ -121,6 +121,27 @@ def gen_cases(level):
                     case = {"request": {"testName": "%s/n%d/%s/h-%s-%s-%s" % (stname, nreq, rname, hq, hr, ht), "streamType": st, "requestMessages": msgs}}
                     reqhdr(case, hq)
                     yield stname, case
+    # response definition not in the first message (the first message alone decides, per
+    # service.proto): a later definition must be ignored by every peer; also no definition at all
+    for st, msgtype, stname, unary_def in (("STREAM_TYPE_CLIENT_STREAM", "ClientStreamRequest", "client-stream", True),
+                                          ("STREAM_TYPE_HALF_DUPLEX_BIDI_STREAM", "BidiStreamRequest", "bidi-half", False)):
+        # (full-duplex is left out: without a definition in the first message it has fewer
+        # responses than requests, the family recorded as a known finding)
+        late = [("late-data", {"responseData": b64(b"late")} if unary_def else {"responseData": [b64(b"late")]}),
+                ("late-err", {"error": {"code": "CODE_ABORTED", "message": "late"}})]
+        for nreq in (2, 3):
+            for lname, ldef in late + [("nodef", None)]:
+                for at in ((1,) if nreq == 2 else (1, 2)):
+                    if ldef is None and at != 1:
+                        continue
+                    msgs = []
+                    for i in range(nreq):
+                        m = {"@type": T + msgtype, "requestData": b64(b"req%d" % i)}
+                        if ldef is not None and i == at:
+                            m["responseDefinition"] = ldef
+                        msgs.append(m)
+                    case = {"request": {"testName": "%s/n%d/%s-at%d" % (stname, nreq, lname, at), "streamType": st, "requestMessages": msgs}}
+                    yield stname, case
     # server stream and bidi: StreamResponseDefinition
     stream_kinds = [("STREAM_TYPE_SERVER_STREAM", "ServerStreamRequest", "server-stream", [1], None),
                     ("STREAM_TYPE_HALF_DUPLEX_BIDI_STREAM", "BidiStreamRequest", "bidi-half", [1, 2, 3], False),
